@@ -87,7 +87,15 @@ func (x *Exec) callValue(fr *Frame, st *State, c *ssa.CallCommon, fval Value, ar
 	if fv == nil || fv.Fn == nil {
 		// symbolic function value: callback obligations, then havoc
 		x.callbackCall(fr, st, c, fv, args)
-		x.havocCall(fr, st, c, args, "function value")
+		src := x.sourceName(fr, c.Value)
+		if i := strings.LastIndex(src, "."); i >= 0 {
+			src = src[i+1:]
+		}
+		if x.CS.PureIface["purefunc:"+src] {
+			x.note("assumed-pure function value: " + src)
+		} else {
+			x.havocCall(fr, st, c, args, "function value")
+		}
 		res := x.freshResult(st, x.resultType(c), "cb")
 		if fr.isRoot && x.rootC != nil && x.rootC.Attrs["trackcalls"] != "" {
 			st.ghost["$call:"+x.sourceName(fr, c.Value)] = &callRecord{args: append([]Value(nil), args...), res: res, sig: c.Signature(), rt: x.resultType(c)}
